@@ -498,7 +498,8 @@ theorem loadStakeInfo_legacy (s : State) (txs : List Tx) (h : legacyStakeReg s =
 
 /-! ### decomposition of a successful `applyBatch` -/
 
-theorem applyBatch_ok (env : Env) (s s' : State) (txs : List Tx) (fb : Header)
+-- (in `Mel.StakeLL`: the name `applyBatch_ok` also occurs in Lemmas/Batch.lean)
+theorem StakeLL.applyBatch_ok (env : Env) (s s' : State) (txs : List Tx) (fb : Header)
     (h : applyBatch env s txs fb = .ok s') :
     ∃ rel newStakes,
       loadRelevantCoins s txs = .ok rel ∧ loadStakeInfo s txs = .ok newStakes ∧
